@@ -662,6 +662,22 @@ def collectTags : List BTree → Cat → R Cat
       else collectTags r { c with tags := c.tags ++ [{ name := n, title := if d.annot.isEmpty then n else d.annot, declared := true }] }
     else collectTags r c
 
+/-- `collectRules` / `buildRule` / `Catalog.AddEnum` (core/compile_core_rules.go): the top-level ENUM directives of the
+expanded forest that have a body are registered in source order; an ENUM without a name and a second ENUM of one name are
+refused (`seen` = the names registered so far).  The check of the body itself is the enum library's (outside the model:
+every body is taken to be well formed).  This stage runs before `collectTags`; it is kept apart from `compile` (the
+composed model `Project.process` and the `build` op of the driver run it first). -/
+def checkRules : List BTree → List Bytes → R Unit
+  | [], _ => .ok ()
+  | t :: r, seen =>
+    let d := t.dir
+    if d.kind == .Enum && d.body.isSome then
+      let n := d.param "Name"
+      if n.isEmpty then fail d (.required "Name")
+      else if seen.contains n then fail d .duplicateNames
+      else checkRules r (seen ++ [n])
+    else checkRules r seen
+
 /-- `checkUserTypeNames` -/
 def checkTypeNames : List BTree → R Unit
   | [] => .ok ()
